@@ -303,6 +303,10 @@ def run(ctx):
     from .c03 import check_vasp_header
 
     check_vasp_header(ctx, "R7")
+    ctx.rule("R8", "GRO: time in picoseconds, positions and box in nanometers, velocities in nm/ps, whatever way the number is written (frame reader evaluated with marker factors)", "a time written with a sign or an exponent loaded as another number of picoseconds")
+    from .c03 import check_gro_frame
+
+    check_gro_frame(ctx, "R8")
     ctx.rule("R5", "cell vectors and grid step vectors are scaled along the right axis", "each cell vector is multiplied by the point count of another axis: the loaded cell differs from the same system in another format")
     from .indexmaps import check_index_maps
 
